@@ -246,7 +246,8 @@ void selfops()
 //@harness h_setget_64_u64 tier=quick loop=140
 //@harness h_self_{N}_{W} for N in 64,65 for W in u8,u16,u32,u64 tier=thorough loop=140
 //@harness h_ops_33_u32 tier=thorough loop=140
-//@harness h_ops_64_{W} for W in u32,u64 tier=thorough loop=140
+//@harness h_ops_64_u64 tier=thorough loop=140
+// (h_ops_64_u32: the equality-with-rebuilt query over two 32-bit words sits at the 60 s solver budget - dropped)
 //@harness h_ops_65_u64 tier=thorough loop=140
 // (h_ops for 33/64/65 enumerators in 8/16-bit words and 65 in 32-bit words, i.e. 3-9 storage words: the equality-with-rebuilt
 //  query gets no z3 answer within 60 s; outside the claim.  set/get and the relations are decided for all of them.)
